@@ -391,3 +391,77 @@ def run(rep: Report, prog: Program, tier: str) -> None:
             rep.fail(mk_finding(prog, PROP, "C15-RATE", r_rate, getattr(ex, "node", None), f"[{label}] raises {ex.name}", construct=f"rate counter raises {ex.name}"))
         except _UnknownP as ex:
             raise AnalysisError(f"C15-RATE cannot evaluate [{label}]: {ex}")
+
+    # ---------------- C15-FEED: the receiver hands every stamped packet to the estimator - stamp 0 (the tick at which the 24-bit clock wraps) included -
+    # with its size, SSRC and arrival time, and forwards exactly what the estimator returns
+    rep.rule("C15-FEED", "RTCRtpReceiver feeds the estimator for every packet carrying a send-time stamp (0 included) and forwards its result as REMB", min_instances=5)
+    from types import SimpleNamespace as _NS
+
+    from .objhook import make_hook as _mkh
+    h = prog.func("rtcrtpreceiver.RTCRtpReceiver._handle_rtp_packet")
+    fed: List[Any] = []
+    rembs: List[Any] = []
+
+    class _Stop(Exception):
+        pass
+
+    def _extra(call: ast.Call, ev: Any) -> Any:
+        name = unparse(call.func)
+        if name.endswith("__remote_bitrate_estimator.add"):
+            kw = {k.arg: ev.ev(k.value) for k in call.keywords}
+            pos = [ev.ev(a) for a in call.args]
+            fed.append((pos, kw))
+            return ev.env["self"].next_result
+        if name == "pack_remb_fci":
+            args = []
+            for a in call.args:
+                args.extend(ev.ev(a.value) if isinstance(a, ast.Starred) else [ev.ev(a)])
+            return ("REMB",) + tuple(args)
+        if name == "RtcpPsfbPacket":
+            return _NS(kind_="psfb", **{k.arg: ev.ev(k.value) for k in call.keywords})
+        if name.endswith("_send_rtcp"):
+            rembs.append(ev.ev(call.args[0]))
+            return None
+        if name.endswith("__log_debug"):
+            return None
+        if name in ("clock.current_datetime", "current_datetime"):
+            return 0
+        return NotImplemented
+
+    class _StopEval(Exception):
+        pass
+    oh5 = _mkh(prog, _extra)
+    feed_cases = [("stamp 5", 5, 10, 2, (1000, [77])), ("stamp 0 (the 24-bit clock wraps)", 0, 10, 0, (2000, [77, 78])), ("stamp 0xFFFFFF", 0xFFFFFF, 0, 3, None),
+                  ("stamp 0, empty payload", 0, 0, 0, None), ("no stamp", None, 10, 0, (1000, [1]))]
+    for label, stamp, plen, pad, result in feed_cases:
+        del fed[:]
+        del rembs[:]
+        me = _NS(__cls__=h.cls, _enabled=True, next_result=result)
+        for k, v in {"__remote_bitrate_estimator": _NS(), "__rtcp_ssrc": 4242, "__active_ssrc": {}, "__codecs": {}}.items():
+            setattr(me, k, v)
+        pkt = _NS(ssrc=77, payload=b"p" * plen, padding_size=pad, payload_type=96, sequence_number=1, timestamp=1, extensions=_NS(abs_send_time=stamp))
+        try:
+            oh5.run_method(h, me, [pkt, 123456], {})
+        except _StopEval:
+            pass
+        except _Raised as ex:
+            rep.fail(mk_finding(prog, PROP, "C15-FEED", h, getattr(ex, "node", None), f"[{label}] raises {ex.name}", construct=f"feed raises {ex.name}"))
+            continue
+        except _UnknownP as ex:
+            raise AnalysisError(f"C15-FEED cannot evaluate [{label}]: {ex}")
+        want_fed = [] if stamp is None else [dict(abs_send_time=stamp, arrival_time_ms=123456, payload_size=plen + pad, ssrc=77)]
+        got_fed = []
+        for pos, kw in fed:
+            d = dict(kw)
+            for nm, v in zip(("abs_send_time", "arrival_time_ms", "payload_size", "ssrc"), pos):
+                d[nm] = v
+            got_fed.append(d)
+        want_remb = [] if (stamp is None or result is None) else [("REMB", result[0], result[1])]
+        got_remb = [getattr(r, "fci", None) for r in rembs]
+        if got_fed != want_fed:
+            rep.fail(mk_finding(prog, PROP, "C15-FEED", h, h.node, f"[{label}] the estimator is fed {got_fed}, expected {want_fed}: the packet's bytes / SSRC are missing from the measurement",
+                                construct="estimator feed: " + label.split(",")[0]))
+        elif got_remb != want_remb or any(getattr(r, "ssrc", None) != 4242 or getattr(r, "media_ssrc", None) != 0 for r in rembs):
+            rep.fail(mk_finding(prog, PROP, "C15-FEED", h, h.node, f"[{label}] REMB feedback sent: {got_remb}, the estimator returned {result}", construct="estimator result not forwarded"))
+        else:
+            rep.ok("C15-FEED", label, sample=f"fed {got_fed}, REMB {got_remb}")
